@@ -85,10 +85,10 @@ CHECKS['C20'] = dict(
     note='Trusted: rustc (absent UB the optimisation level does not change results); ' + TB + 'The 98 silent-wrap sites found by this check are repaired by a fix: commit.')
 
 CHECKS['C09'] = dict(
-    category='other', design_ref='DESIGN.md section 5 C09',
-    technique='forwarder-shape rule on MIR for Hash::hash; ' + ABSINT + ' with gcd_special as an uninterpreted function (shared atom table across the three ratio methods); who-may-call rule',
-    text='CLAUSE decided: Hash::hash is exactly as_integer_ratio().hash(state); for all 19 scales x sign classes as_integer_ratio() = (numerator(), denominator()) = (x/g, 10^p/g) as terms over g = gcd_special(x,p), (x,1) for integral representations and zero; the assertions inside gcd_special cannot fire at its three call sites; the denominator is positive. NOT decided: that gcd_special computes the gcd (contract G) - reducedness and "equal values hash equally" hold modulo that.',
-    note=TB + 'CONTRACT G for gcd_special (assumed, printed in the evidence); core\'s Hash for tuples.')
+    category='proof', design_ref='DESIGN.md section 5 C09, section 12.8',
+    technique='forwarder-shape rule on MIR for Hash::hash; ' + ABSINT + ' with a specification-supplied loop invariant for the binary-gcd loop (inductiveness checked by re-arrival subsumption, gcd identities as rewrite rules); who-may-call rule',
+    text='Hash::hash is exactly as_integer_ratio().hash(state); for all 19 scales x sign classes as_integer_ratio() = (numerator(), denominator()) = (x/g, 10^p/g) over g = gcd_special(x,p), (x,1) for integral representations and zero; the assertions inside gcd_special cannot fire; the denominator is positive; and gcd_special(x,e) = gcd(|x|, 10^e) for every exponent 1..18 (thorough: 1..38) and both signs: the loop invariant "u odd, u > 0, v >= 0, gcd(u,v) = gcd(u_entry, v_entry)" holds on entry and is preserved by one iteration from an arbitrary invariant state, on exit v = 0. Hence the ratio is the unique reduced fraction and equal values hash identically.',
+    note=TB + 'the textbook gcd identities L1/L2 (listed in the evidence); core\'s Hash for tuples.')
 CHECKS['C18'] = dict(
     category='other', design_ref='DESIGN.md section 5 C18, Appendix A.10',
     technique='who-may-call / argument-origin rule (shared parser) + ' + ABSINT + ' of both post-processing paths in one shared term universe (sibling equivalence) against oracle A.10',
